@@ -379,3 +379,71 @@ insphere2d_dyadic_edge!(c12_insphere2d_fast_dyadic_edge, call_fast_in_sphere);
 insphere2d_dyadic_edge!(c12_insphere2d_lifted_dyadic_edge, call_insphere_lifted);
 insphere2d_dyadic_edge!(c12_insphere2d_robust1_dyadic_edge, call_robust_stage1);
 insphere2d_dyadic_edge!(c12_insphere2d_robust3_dyadic_edge, call_robust_stage3);
+
+// ---------------------------------------------------------------------------
+// T = f32 instantiation on LARGE exactly representable coordinates (|x| ~ 1e4): the matrix is
+// evaluated in f64, so a determinant of magnitude >= 1e6 (six orders above the f64 rounding
+// error of the LU, nine above the documented tolerance) must get its exact sign. (Finding F5:
+// the lifted coordinate x^2+y^2 used to be computed in f32 and flipped the sign.)
+// ---------------------------------------------------------------------------
+
+fn exact_incircle_i64(p: &[[i64; 2]; 3], q: [i64; 2]) -> (i64, i64) {
+    // translate by q: 3x3 determinant of [dx, dy, dx^2+dy^2], and the orientation
+    let r = |v: [i64; 2]| {
+        let (dx, dy) = (v[0] - q[0], v[1] - q[1]);
+        [dx, dy, dx * dx + dy * dy]
+    };
+    let m = [r(p[0]), r(p[1]), r(p[2])];
+    let det = m[0][0] * (m[1][1] * m[2][2] - m[1][2] * m[2][1]) - m[0][1] * (m[1][0] * m[2][2] - m[1][2] * m[2][0])
+        + m[0][2] * (m[1][0] * m[2][1] - m[1][1] * m[2][0]);
+    let o = (p[1][0] - p[0][0]) * (p[2][1] - p[0][1]) - (p[1][1] - p[0][1]) * (p[2][0] - p[0][0]);
+    (det, o)
+}
+
+macro_rules! insphere2d_f32_large {
+    ($name:ident, $call:expr) => {
+        harness! {
+            // bound: D=2 in-sphere, T=f32: triangle (9846,27),(11,9865),(-9858,1) and query (1,-9839), the query and the third vertex each moved by any offset in [-3,3]^2 (2401 configurations, all exactly representable in f32); strict exact sign demanded where |det| >= 1e6
+            #[kani::unwind(6)]
+            fn $name() {
+                let e = [any_grid(3), any_grid(3), any_grid(3), any_grid(3)];
+                let ip: [[i64; 2]; 3] = [[9846, 27], [11, 9865], [-9858 + i64::from(e[0]), 1 + i64::from(e[1])]];
+                let iq: [i64; 2] = [1 + i64::from(e[2]), -9839 + i64::from(e[3])];
+                let (det, o) = exact_incircle_i64(&ip, iq);
+                kani::assume(o > 0);
+                let pts: [Point<f32, 2>; 3] = [
+                    Point::new([9846.0, 27.0]),
+                    Point::new([11.0, 9865.0]),
+                    Point::new([(-9858 + e[0]) as f32, (1 + e[1]) as f32]),
+                ];
+                let q: Point<f32, 2> = Point::new([(1 + e[2]) as f32, (-9839 + e[3]) as f32]);
+                let got: Result<i32, ()> = $call(&pts, q);
+                if det >= 1_000_000 {
+                    assert!(got == Ok(1), "in-sphere equals the sign of the exact determinant (f32 input, well separated)");
+                } else if det <= -1_000_000 {
+                    assert!(got == Ok(-1), "in-sphere equals the sign of the exact determinant (f32 input, well separated)");
+                }
+                kani::cover!(det >= 1_000_000, "well-separated inside reached");
+                kani::cover!(det <= -1_000_000, "well-separated outside reached");
+                kani::cover!(det > -1_000_000 && det < 1_000_000, "near-cocircular (no demand) reached");
+            }
+        }
+    };
+}
+
+fn call_fast_in_sphere_f32(pts: &[Point<f32, 2>; 3], q: Point<f32, 2>) -> Result<i32, ()> {
+    <FastKernel<f32> as Kernel<2>>::in_sphere(&FastKernel::new(), pts, &q).map_err(|_| ())
+}
+
+fn call_insphere_lifted_f32(pts: &[Point<f32, 2>; 3], q: Point<f32, 2>) -> Result<i32, ()> {
+    insphere_lifted(pts, q).map(insphere_to_i32).map_err(|_| ())
+}
+
+fn call_robust_stage1_f32(pts: &[Point<f32, 2>; 3], q: Point<f32, 2>) -> Result<i32, ()> {
+    let cfg = config_presets::general_triangulation::<f32>();
+    rhooks::adaptive_tolerance_insphere(pts, &q, &cfg).map(insphere_to_i32).map_err(|_| ())
+}
+
+insphere2d_f32_large!(c12_insphere2d_fast_f32_large, call_fast_in_sphere_f32);
+insphere2d_f32_large!(c12_insphere2d_lifted_f32_large, call_insphere_lifted_f32);
+insphere2d_f32_large!(c12_insphere2d_robust1_f32_large, call_robust_stage1_f32);
